@@ -27,5 +27,5 @@ def trc(ctx):
     lints.kind_lint(ctx, ["genjax.core"])
 
 
-RULES = [trc, gfi.dist_regenerate, gfi.address_glue, combs, selection_threading]
+RULES = [trc, gfi.dist_regenerate, gfi.address_glue, lambda ctx: gfi.density_reduction(ctx, ['Regenerate', 'regenerate']), combs, selection_threading]
 FLOOR = 8
